@@ -939,7 +939,7 @@ int
 protocols_verif(signature_t *sig, const public_key_t *pk, const unsigned char *m, size_t l)
 {
 
-    int verif;
+    int verif = 0;
 
     ibz_t tmp;
     ibz_vec_2_t vec_chall, check_vec_chall;
@@ -1060,6 +1060,10 @@ protocols_verif(signature_t *sig, const public_key_t *pk, const unsigned char *m
         // }
         assert(test_point_order_twof(&ker, &E_chall_2, sig->two_resp_length));
         VERIF_TAP("small_ker", &ker, sig->two_resp_length);
+        // the kernel of the small two-isogeny chain must have order exactly 2^two_resp_length
+        if (!test_point_order_twof(&ker, &E_chall_2, sig->two_resp_length)) {
+            goto cleanup;
+        }
         ec_eval_small_chain(&E_chall_2, &ker, sig->two_resp_length, points, 3);
 
         assert(test_point_order_twof(&points[0], &E_chall_2, 2 + pow_dim2_deg_resp));
@@ -1100,9 +1104,21 @@ protocols_verif(signature_t *sig, const public_key_t *pk, const unsigned char *m
     VERIF_TAP("T2", &T2, pow_dim2_deg_resp);
     VERIF_TAP("T1m2", &T1m2, pow_dim2_deg_resp);
 
+    // the kernel of the (2,2)-isogeny chain must be generated by points of order exactly
+    // 2^(pow_dim2_deg_resp+2) on both curves: a response matrix that is not invertible modulo 2
+    // (zero, even, rank-deficient) or an auxiliary curve without such a basis is rejected here
+    if (!test_point_order_twof(&T1.P1, &EchallxEaux.E1, pow_dim2_deg_resp + 2) ||
+        !test_point_order_twof(&T2.P1, &EchallxEaux.E1, pow_dim2_deg_resp + 2) ||
+        !test_point_order_twof(&T1m2.P1, &EchallxEaux.E1, pow_dim2_deg_resp + 2) ||
+        !test_point_order_twof(&T1.P2, &EchallxEaux.E2, pow_dim2_deg_resp + 2) ||
+        !test_point_order_twof(&T2.P2, &EchallxEaux.E2, pow_dim2_deg_resp + 2) ||
+        !test_point_order_twof(&T1m2.P2, &EchallxEaux.E2, pow_dim2_deg_resp + 2)) {
+        goto cleanup;
+    }
+
     // computing the isogeny
     int extra_info = 1;
-    theta_chain_comput_strategy_faster_no_eval(
+    int chain_ok = theta_chain_comput_strategy_faster_no_eval(
         &isog,
         pow_dim2_deg_resp,
         &EchallxEaux,
@@ -1111,6 +1127,10 @@ protocols_verif(signature_t *sig, const public_key_t *pk, const unsigned char *m
         &T1m2,
         strategies[TORSION_PLUS_EVEN_POWER - pow_dim2_deg_resp],
         extra_info);
+    // a chain whose codomain does not split as a product of elliptic curves is rejected
+    if (!chain_ok) {
+        goto cleanup;
+    }
 
     // TOC_clock(t,"response isogeny");
 
@@ -1134,6 +1154,7 @@ protocols_verif(signature_t *sig, const public_key_t *pk, const unsigned char *m
         verif = (ibz_cmp(&vec_chall[1], &check_vec_chall[1]) == 0);
     }
 
+cleanup:
     ibz_finalize(&tmp);
     ibz_vec_2_finalize(&vec_chall);
     ibz_vec_2_finalize(&check_vec_chall);
